@@ -37,7 +37,7 @@ def bounds(tier):
     q = tier == "quick"
     return {"subjects": [s.name for s in SS.ALL], "budgets": [0.5] if q else [0.25, 0.5], "max_chunk": 2, "query_chunks": 2,
             "horizon": 3 if q else 5, "horizon_managers": 4 if q else 6, "max_states": 1500 if q else 20000,
-            "continuation_depth": 2, "rng_modes": ["model", "real"], "real_seeds": 1 if q else 2}
+            "continuation_depth": 2, "rng_modes": ["model", "real", "global (random_state=None, linear histories of length 3/4)"], "real_seeds": 1 if q else 2}
 
 
 def shards(tier, seed):
@@ -48,6 +48,7 @@ def shards(tier, seed):
             out.append({"tier": tier, "seed": seed, "subject": s.name, "budget": bud, "rng": "model"})
             for k in range(b["real_seeds"]):
                 out.append({"tier": tier, "seed": seed, "subject": s.name, "budget": bud, "rng": "real", "rseed": seed * 10 + k})
+        out.append({"tier": tier, "seed": seed, "subject": s.name, "budget": 0.5, "rng": "global"})
     return out
 
 
@@ -179,9 +180,60 @@ def check_subject(acc, subj, budget, rng_mode, b, rseed):
     acc.sample({"config": cfg, "states": r["states"], "queries_judged_per_state": len(queries), "continuations_per_state": len(conts)}, limit=1)
 
 
+def check_global(acc, subj, budget, tier):
+    """random_state=None: the strategy draws from numpy's process-global generator. Objects holding the global singleton cannot be
+    deep-copied faithfully, so histories are replayed linearly: all streams of 1-instance chunks up to length 3 (4 in thorough); before
+    every update every query of the alphabet is called twice and must leave the global generator state and its own result unchanged."""
+    syms = G.alphabet_of(subj)
+    L = 3 if tier == "quick" else 4
+    queries = G.chunks_of(subj, 2)
+    for stream in itertools.product(syms, repeat=L):
+        np.random.seed(4711)
+        with warnings.catch_warnings():
+            warnings.simplefilter("ignore")
+            try:
+                obj = subj.make(budget, None)
+            except Exception:
+                return
+            for pos, sym in enumerate(stream):
+                key = (subj.name, "global", stream[:pos + 1])
+                if not acc.case(key):
+                    pass
+                for q in queries:
+                    st0 = np.random.get_state()
+                    try:
+                        r1 = G.do_query(subj, obj, q, UV)
+                        st1 = np.random.get_state()
+                        r2 = G.do_query(subj, obj, q, UV)
+                    except Exception as e:
+                        break
+                    acc.transitions += 2
+                    wit = {"subject": subj.name, "random_state": None, "budget": budget, "stream_before": "".join(stream[:pos]), "query": "".join(q)}
+                    rep = {"subject": subj.name, "budget": budget, "rng": "global", "history": [], "stream": "".join(stream[:pos]), "query": "".join(q)}
+                    same_state = st0[0] == st1[0] and np.array_equal(st0[1], st1[1]) and st0[2:] == st1[2:]
+                    if not same_state:
+                        acc.violation(subj.name, "query_advances_global_generator", "after updates %s, query %s changed np.random's state (position %d -> %d)" % (
+                            "".join(stream[:pos]), "".join(q), st0[2], st1[2]), wit, {}, rep, pos)
+                    if not _same_out(r1, r2):
+                        acc.violation(subj.name, "repeated_query_differs", "random_state=None, after updates %s: query %s twice gives %s then %s" % (
+                            "".join(stream[:pos]), "".join(q), list(r1[0]), list(r2[0])), wit, {}, rep, pos)
+                acc.traces_validated += 1
+                try:
+                    idx, ut = G.do_query(subj, obj, (sym,), UV)
+                    G.do_update(subj, obj, (sym,), idx, ut, UV)
+                    acc.transitions += 1
+                except Exception:
+                    break
+    acc.states += len(acc.nontrivial)
+    acc.sample({"config": {"subject": subj.name, "random_state": None}, "streams": "all 1-instance streams of length %d" % L}, limit=1)
+
+
 def run_shard(spec):
     T.install()
     acc = Acc()
+    if spec["rng"] == "global":
+        check_global(acc, SS.BY_NAME[spec["subject"]], spec["budget"], spec["tier"])
+        return acc
     check_subject(acc, SS.BY_NAME[spec["subject"]], spec["budget"], spec["rng"], bounds(spec["tier"]), spec.get("rseed", 0))
     return acc
 
@@ -189,6 +241,10 @@ def run_shard(spec):
 def replay(spec):
     T.install()
     subj = SS.BY_NAME[spec["subject"]]
+    if spec.get("rng") == "global":
+        acc = Acc()
+        check_global(acc, subj, float(spec["budget"]), "quick")
+        return [(s, k) for (s, k, _p) in acc.groups]
     b = bounds("quick")
     with warnings.catch_warnings():
         warnings.simplefilter("ignore")
